@@ -91,8 +91,11 @@ def run(ctx):
     base = find_stmt("$$v = nlive * ones_like(samples)", cw.node, c_ar[0][1] if c_ar else None)
     ctx.ob("R-SIB", "C02.2", cw, "one-pass weights: all earlier samples get the constant count nlive (same array)", len(base) == 1, f"`{src(base[0][0]) if base else None}`")
     nsf = ctx.fn("nessai.samplers.nestedsampler:NestedSampler.finalise")
-    kws = find_stmt("for $$i, $$p in enumerate(self.live_points):\n    self.state.increment($$p['logL'], nlive=self.nlive - $$i)\n    self.nested_samples.append($$p)", nsf.node)
-    ctx.ob("R-SIB", "C02.2", nsf, "incremental integrator receives the same schedule (self.nlive - i, i = 0, 1, ...) when the run is finalised", len(kws) == 1, "")
+    from ..rules.schedule import final_schedule as _fsched
+    nsfa = FA(nsf)
+    loops_ = [n for n in nsfa.nodes() if n.kind == "for" and any(is_self_attr(x, "live_points") for x in ast.walk(n.ast.iter))]
+    sch_ = _fsched(nsfa, loops_[0]) if len(loops_) == 1 else {"ok": False, "why": "loop over self.live_points not found"}
+    ctx.ob("R-SIB", "C02.2", nsf, "incremental integrator receives the same schedule (self.nlive - i, i = 0, 1, ...) when the run is finalised", sch_["ok"], sch_["why"])
     ctx.floor("C02.2", 4)
 
     # ---- C02.3 boundary construction -----------------------------------------
